@@ -181,6 +181,9 @@ BAD_TEMPLATES = [
     ("{fn}({ctx}) > #bar", {}, "unknown meta-variable"),
     ("{fn}(#enterr) > {v}", {}, "unknown meta-variable as context"),
     ("{fn}(!#value_) ", {}, "unknown meta-variable"),
+    ("{fn} > #value.real", {}, "unknown (dotted) meta-variable"),
+    ("{fn}({ctx}) > #exit.done", {}, "unknown (dotted) meta-variable"),
+    ("{fn}(#error.args) > {v}", {}, "unknown (dotted) meta-variable as context"),
     ("{fn} > {v}:x", {}, "category that is not a tag"),
     ("{fn} > $z:f", {}, "category that is not a tag"),
     ("{fn}({ctx}:x) > {v}", {}, "category that is not a tag"),
